@@ -859,13 +859,13 @@ _PARTS = 4
 
 SUBCHECKS = [
     SubCheck('history_%s' % prof, ops_gen.history_case(25, profile=prof), check_history,
-             classify_history, quick=300, thorough=4000, max_reject_frac=0.05,
+             classify_history, quick=500, thorough=4000, max_reject_frac=0.05,
              doc='random histories (<=25 ops, op weights "%s") over a family of RDMs objects; '
                  'identity invariant after every step, bystanders unchanged' % prof)
     for prof in ('balanced', 'ordering', 'combining', 'selecting')
 ] + [
     SubCheck('history_long', ops_gen.history_case(50, min_ops=20), check_history, classify_history,
-             quick=60, thorough=1600, max_reject_frac=0.05,
+             quick=80, thorough=1600, max_reject_frac=0.05,
              doc='long histories (20-50 ops)'),
     Enumeration('sizes', enum_sizes, check_size, classify_size,
                 doc='n_cond recovered from the vector length for every n in 1..2000'),
